@@ -18,6 +18,7 @@ class Outcome:
     self.model_bytes = None
     self.model_arg = None
     self.batched = False
+    self.calib_under = False
     self.qt = None
     self.accepted = []      # rule specs accepted by the API
     self.refused = []       # (rule spec, exception)
@@ -71,6 +72,17 @@ def setup_quantizer(model_bytes, recipe, prior=None, use_after=None, use_fn=None
 
 def calibration_data(model_spec, sg_index, seeds):
   return [G.make_inputs(model_spec, sg_index, s) for s in seeds]
+
+
+def flip_granularity(recipe):
+  """The exported recipe with CHANNELWISE <-> TENSORWISE weights."""
+  import json
+  r = json.loads(json.dumps(recipe))
+  for e in r:
+    w = (e.get('op_config') or {}).get('weight_tensor_config')
+    if w and w.get('granularity') in ('CHANNELWISE', 'TENSORWISE'):
+      w['granularity'] = 'TENSORWISE' if w['granularity'] == 'CHANNELWISE' else 'CHANNELWISE'
+  return r
 
 
 def batched(model_bytes, mspec, si, seeds, b, out=None):
@@ -133,6 +145,17 @@ def run(case, stop_after=None):
       for si, sg in enumerate(mspec['subgraphs']):
         core.call(qt.calibrate, [G.make_inputs(mspec, si, 4321, 0.02)], sg['sig'])
     res = None
+    final = None
+    if case.get('calib_under') == 'flip_granularity':
+      # the statistics are collected while the recipe has the other weight
+      # granularity (calibrate once, then try recipes with the same result)
+      final = qt.get_quantization_recipe()
+      ok, _ = core.call(qt.load_quantization_recipe, flip_granularity(final))
+      if not ok or not qt.need_calibration:
+        qt.load_quantization_recipe(copy.deepcopy(final))
+        final = None
+      else:
+        out.calib_under = True
     for si, sg in enumerate(mspec['subgraphs']):
       data = calibration_data(mspec, si, seeds)
       if case.get('calib_batch'):
@@ -145,6 +168,8 @@ def run(case, stop_after=None):
         return out
       res = r
     calib = res
+    if final is not None:
+      qt.load_quantization_recipe(copy.deepcopy(final))
   out.calib = calib
   if stop_after == 'calibrate':
     return out
@@ -248,6 +273,8 @@ def usage_dimensions(draw, case):
     case['use_after'] = draw(st.integers(1, len(rules) - 1))
   if draw(st.integers(0, 5)) == 0:
     case['prior_calib'] = True
+  if draw(st.integers(0, 5)) == 0:
+    case['calib_under'] = 'flip_granularity'
   return None
 
 
